@@ -226,7 +226,7 @@ def minimise(check, cfg, schedule, clause, budget=400):
             n = min(len(groups), n * 2)
     # per-op / per-config simplification
     simple_cfg = dict(cfg)
-    for key, val in (("log", "off"), ("keep_zeros", False)):
+    for key, val in (("log", "off"), ("keep_zeros", False), ("numstyle", None), ("compact", False)):
         if simple_cfg.get(key) != val:
             c2 = dict(simple_cfg)
             c2[key] = val
